@@ -377,4 +377,14 @@ theorem jinv_run : ∀ (evs : List Ev) (s s' : State) (c : Client) (adds : Nat),
             intro h0; exact j3 (by simp only at h0; omega)) hrest hb.2 h
         simpa [countAdds] using this
 
+
+theorem bounded_end : ∀ (evs : List Ev) (s s' : State), BoundedRun s evs → run s evs = some s' → Bounded s'
+  | [], s, s', hb, h => by simp only [run, Option.some.injEq] at h; subst h; exact hb
+  | e :: es, s, s', hb, h => by
+    simp only [run] at h
+    simp only [BoundedRun] at hb
+    cases hs : step s e with
+    | none => simp [hs] at h
+    | some s1 => simp only [hs] at h hb; exact bounded_end es s1 s' hb.2 h
+
 end Fh.Proofs.LB
